@@ -317,3 +317,44 @@ def lemma_lex_is_strict_weak_order():
 
 
 R.lemmas.append(("priorityqueue.pyx:L#lexicographic-order-is-a-strict-weak-order", P, lemma_lex_is_strict_weak_order))
+
+
+# ---- client lemmas over the contracts (histories)
+R.client_lemmas["L#push-then-get_score"] = '''
+def pushed_then_looked_up(self, score, item, other):
+    self.c_push(score, item)
+    a = self.c_get_score_by_item(item)
+    b = self.c_get_score_by_item(other)
+    return (a, b)
+'''
+R.contract("L#push-then-get_score", params={"self": REF("PriorityQueue"), "score": REF("Score"), "item": INT, "other": INT}, returns=TUPLE(REF("Score"), REF("Score")),
+           requires=WF + [("new-item", "item not in self.positions"), ("score-valid", "score is not None and len(score.data) >= 0"), ("another-item", "other != item")],
+           ensures=[("the-pushed-item-has-the-pushed-score", "result[0] is score"),
+                    ("every-other-item-keeps-its-score-or-absence", "ite(old(other in self.positions), result[1] is old(self.heap[self.positions[other]].first), result[1] is None)")],
+           modifies=["PriorityQueue.heap", "PriorityQueue.positions"], props=P)
+
+R.client_lemmas["L#change_score-then-get_score"] = '''
+def changed_then_looked_up(self, item, c_new_score, other):
+    self.c_change_score(item, c_new_score)
+    a = self.c_get_score_by_item(item)
+    b = self.c_get_score_by_item(other)
+    return (a, b)
+'''
+R.contract("L#change_score-then-get_score", params={"self": REF("PriorityQueue"), "item": INT, "c_new_score": REF("Score"), "other": INT}, returns=TUPLE(REF("Score"), REF("Score")),
+           requires=list(R.contracts["PriorityQueue.c_change_score"].requires) + [("another-item", "other != item")],
+           ensures=[("the-item-has-the-new-score", "result[0] is c_new_score"),
+                    ("every-other-item-keeps-its-score-or-absence", "ite(old(other in self.positions), result[1] is old(self.heap[self.positions[other]].first), result[1] is None)")],
+           modifies=["PriorityQueue.heap", "PriorityQueue.positions"], props=P)
+
+R.client_lemmas["L#pop-then-get_score"] = '''
+def popped_then_looked_up(self, other):
+    e = self.c_pop()
+    a = self.c_get_score_by_item(e.second)
+    b = self.c_get_score_by_item(other)
+    return (e, a, b)
+'''
+R.contract("L#pop-then-get_score", params={"self": REF("PriorityQueue"), "other": INT}, returns=TUPLE(ENTRY, REF("Score"), REF("Score")),
+           requires=list(R.contracts["PriorityQueue.c_pop"].requires) + [("non-empty", "len(self.heap) > 0")],
+           ensures=[("the-popped-item-is-gone", "result[1] is None"),
+                    ("every-other-item-keeps-its-score-or-absence", "implies(other != result[0].second, ite(old(other in self.positions), result[2] is old(self.heap[self.positions[other]].first), result[2] is None))")],
+           modifies=["PriorityQueue.heap", "PriorityQueue.positions"], props=P)
